@@ -4909,22 +4909,21 @@ class FST:
         ):
             return self
 
-        while True:
-            for f in self.walk('loc', self_=False):
-                fln, fcol, fend_ln, fend_col = f.loc
+        for f in self.walk('loc', self_=False):
+            fln, fcol, fend_ln, fend_col = f.loc
 
-                if fln < ln or (fln == ln and fcol < col):
-                    continue
+            if fln < ln or (fln == ln and fcol < col):
+                continue
 
-                if fend_ln < end_ln or (fend_ln == end_ln and fend_col <= end_col):
-                    return f
+            if fend_ln < end_ln or (fend_ln == end_ln and fend_col <= end_col):
+                return f
 
-                self = f
-
+            if (bln := (bloc := f.bloc)[0]) > end_ln or (bln == end_ln and bloc[1] > end_col):  # starts behind the location (bloc because decorators precede the node) and so does everything the walk still has
                 break
 
-            else:
-                return None
+            # starts inside and ends behind, the walk goes on into it and, siblings can overlap (the Constant in front of a self-documenting f-string field), behind it
+
+        return None
 
     # TODO: more types of search
 
